@@ -1622,6 +1622,7 @@ start_property (GMarkupParseContext *context,
   const gchar *transfer;
   const gchar *setter;
   const gchar *getter;
+  const gchar *deprecated;
   GIrNodeProperty *property;
   GIrNodeInterface *iface;
 
@@ -1649,6 +1650,7 @@ start_property (GMarkupParseContext *context,
   transfer = find_attribute ("transfer-ownership", attribute_names, attribute_values);
   setter = find_attribute ("setter", attribute_names, attribute_values);
   getter = find_attribute ("getter", attribute_names, attribute_values);
+  deprecated = find_attribute ("deprecated", attribute_names, attribute_values);
 
   if (name == NULL)
     {
@@ -1682,6 +1684,7 @@ start_property (GMarkupParseContext *context,
 
   property->setter = g_strdup (setter);
   property->getter = g_strdup (getter);
+  property->deprecated = deprecated && strcmp (deprecated, "1") == 0;
 
   parse_property_transfer (property, transfer, ctx);
 
